@@ -152,16 +152,17 @@ enum Req { Exec(usize), Compile(usize) }
 struct Obs { class: String, output: String, detail: String, heap_objs: i64, unit: Option<CodeSnap> }
 
 #[cfg(vbxq_aelys_lang_verif)]
-fn do_request(p: &mut Pipeline, r: Req, pool: &[String]) -> Obs {
+fn do_request(p: &mut Pipeline, r: Req, pool: &[String], same_name: bool) -> Obs {
+    let nm = |i: usize| if same_name { "main".to_string() } else { format!("src{}", i) };
     use aelys_runtime::verif;
     verif::sink_install();
     verif::budget_set(3_000_000);
     let res = guarded(std::panic::AssertUnwindSafe(|| match r {
-        Req::Exec(i) => match p.execute_str(&format!("src{}", i), &pool[i]) {
+        Req::Exec(i) => match p.execute_str(&nm(i), &pool[i]) {
             Ok(v) => (render_value(v), String::new(), -1, None),
             Err(e) => { let (c, d) = render_err(&e); (c, d, -1, None) }
         },
-        Req::Compile(i) => match p.compile_str(&format!("src{}", i), &pool[i]) {
+        Req::Compile(i) => match p.compile_str(&nm(i), &pool[i]) {
             Ok((f, h)) => {
                 let objs = h.object_count() as i64;
                 let ser = guarded(std::panic::AssertUnwindSafe(|| aelys_bytecode::asm::serialize(&f, &h)));
@@ -302,7 +303,7 @@ impl<'a> Gen<'a> {
 // ------------------------------------------------------------------------------------------
 // histories
 
-struct Hist { kind: PKind, opt: u32, pool: Vec<String>, feats: Vec<Vec<&'static str>>, reqs: Vec<Req>, origin: String }
+struct Hist { same_name: bool, kind: PKind, opt: u32, pool: Vec<String>, feats: Vec<Vec<&'static str>>, reqs: Vec<Req>, origin: String }
 
 fn hist_string(reqs: &[Req]) -> String {
     reqs.iter().map(|r| match r { Req::Exec(i) => format!("E{}", i), Req::Compile(i) => format!("C{}", i) }).collect::<Vec<_>>().join(" ")
@@ -342,7 +343,7 @@ fn gen_hist(rng: &mut Rng) -> Hist {
         let compile = match kind { PKind::Compilation => true, _ => if outside { only_compile } else { rng.chance(1, 4) } };
         reqs.push(if compile { Req::Compile(i) } else { Req::Exec(i) });
     }
-    Hist { kind, opt, pool, feats, reqs, origin: if outside { "generated-outside-known".into() } else { "generated".into() } }
+    Hist { same_name: rng.chance(1, 2), kind, opt, pool, feats, reqs, origin: if outside { "generated-outside-known".into() } else { "generated".into() } }
 }
 
 /// corpus format: `#pipeline <kind> <opt>` / `#history E0 E0 C1` / `#source` + text (repeated)
@@ -353,7 +354,9 @@ fn read_corpus(path: &str) -> Option<Hist> {
     let mut reqs = Vec::new();
     let mut pool: Vec<String> = Vec::new();
     let mut in_src = false;
+    let mut same_name = false;
     for line in text.lines() {
+        if line.trim() == "#names same" { same_name = true; in_src = false; continue; }
         if let Some(r) = line.strip_prefix("#pipeline ") {
             let mut it = r.split_whitespace();
             kind = PKind::parse(it.next().unwrap_or("standard"));
@@ -373,7 +376,7 @@ fn read_corpus(path: &str) -> Option<Hist> {
     }
     if pool.is_empty() || reqs.iter().any(|r| match r { Req::Exec(i) | Req::Compile(i) => *i >= pool.len() }) { return None; }
     let feats = pool.iter().map(|_| vec!["corpus"]).collect();
-    Some(Hist { kind, opt, pool, feats, reqs, origin: path.to_string() })
+    Some(Hist { same_name, kind, opt, pool, feats, reqs, origin: path.to_string() })
 }
 
 /// Everything of a compiled function except the heap, copied out before the unit is run
@@ -419,7 +422,7 @@ fn diff_code(a: &CodeSnap, b: &CodeSnap) -> (usize, usize, bool) {
 
 #[cfg(vbxq_aelys_lang_verif)]
 fn run_hist(hid: usize, h: &Hist) {
-    println!("H\t{}\t{}\t{}\t{}\t{}\t{}", hid, h.kind.name(), h.opt, hist_string(&h.reqs), h.pool.len(), esc(&h.origin));
+    println!("H\t{}\t{}\t{}\t{}\t{}\t{}\t{}", hid, h.kind.name(), h.opt, hist_string(&h.reqs), h.pool.len(), esc(&h.origin), h.same_name as u8);
     for (i, s) in h.pool.iter().enumerate() {
         println!("S\t{}\t{}\t{}\t{}", hid, i, h.feats[i].join(","), esc(s));
     }
@@ -427,12 +430,12 @@ fn run_hist(hid: usize, h: &Hist) {
     let mut nocache = make_pipeline(h.kind, h.opt, true);
     let mut nocomp = make_pipeline(h.kind, h.opt, false);
     for (ri, &r) in h.reqs.iter().enumerate() {
-        let a = do_request(&mut cached, r, &h.pool);
+        let a = do_request(&mut cached, r, &h.pool, h.same_name);
         nocache.clear_cache();
-        let b = do_request(&mut nocache, r, &h.pool);
-        let d = do_request(&mut nocomp, r, &h.pool);
+        let b = do_request(&mut nocache, r, &h.pool, h.same_name);
+        let d = do_request(&mut nocomp, r, &h.pool, h.same_name);
         let mut fresh = make_pipeline(h.kind, h.opt, true);
-        let c = do_request(&mut fresh, r, &h.pool);
+        let c = do_request(&mut fresh, r, &h.pool, h.same_name);
         // heap constants owned by the compiled unit of this source (measured on a fresh compile)
         let si = match r { Req::Exec(i) | Req::Compile(i) => i };
         let mut cp = make_pipeline(h.kind, h.opt, true);
